@@ -150,6 +150,43 @@ PROPS['C17'] = {
     ],
 }
 
+PROPS['C03'] = {
+    'title': 'Orientation and point-location predicates are exact for all f64 input',
+    'level': 'proof',
+    'verus': ['c03_kernel', 'c02_ring', 'c02_position'],
+    'kani': [
+        ('geo', 'c11.rs', r'^c03_k_float_kernel_is_exact$', 'complete', 'quick'),
+        ('geo', 'c02.rs', r'^c03_k_simple_kernel_i16$', 'complete', 'quick'),
+        ('geo', 'c02.rs', r'^c02_k_(line_coord|tri_pos|contains_tri_coord)$', 'complete', 'quick'),
+        ('geo', 'c05.rs', r'^c05_k_winding_tri_(0_none|1_dupclose)$', 'bounded', 'quick'),
+    ],
+    'twins': {
+        'C03.V.kernel_orient2d_default': r'^c03_k_simple_kernel',
+        'C02.V.coord_pos_relative_to_ring': r'^c02_k_ring_pos',
+    },
+    'trusted': ['exactness of robust::orient2d itself (adaptive-precision expansion arithmetic: outside both tools) is an ASSUMED contract',
+                'Verus units are verified with the scalar\'s arithmetic left UNINTERPRETED (c02_ring, c02_position): every decision of the ring walk / polygon / rect position code is therefore provably taken from orientation signs and comparisons only, so it is exact whenever the kernel is',
+                'c03_kernel: the default (integer) kernel body returns the exact sign under exact ring arithmetic ("products fit")'],
+    'undecided_clauses': [
+        'robust::orient2d returns the exact sign for all finite f64 (assumed)',
+        'K harnesses only cover the integer lattice; off-lattice f64 input is covered only by the uninterpreted-arithmetic argument',
+        'convex hull decision points (qhull / graham) are under C08',
+    ],
+}
+
+PROPS['C10'] = {
+    'title': 'Triangulations and monotone subdivision tile the polygon exactly',
+    'level': 'proof',
+    'verus': ['c10_earcut_glue'],
+    'kani': [],
+    'trusted': ['earcutr::earcut is an ASSUMED contract: every returned index addresses a vertex of the flattened input (precondition `indices_ok` of Iter::next)',
+                'Polygon::coords_count twin (capacity hint only)'],
+    'undecided_clauses': [
+        'tiling / disjointness / area of the ear-cut triangles (inside earcutr), constrained and unconstrained Delaunay (inside spade), monotone subdivision sweep and point location, stitching: NOT under contract',
+        'decided: the flattening of rings into the earcutr vertex list, the hole start indices, and the decoding of index triples back into polygon vertices ("triangle corners are polygon vertices" given the assumed contract), for all ring lengths and hole counts',
+    ],
+}
+
 NOT_APPLICABLE = {
     'C16': 'every clause is an identity between compositions of sin/cos/atan2/asin/sqrt/tan/ln in f64 (or calls into geographiclib-rs); Verus leaves float arithmetic uninterpreted and CBMC models libm as nondeterministic, so no contract stronger than "returns an f64" is provable',
     'C20': '2-safety hyper-property over runs, thread-pool sizes and hash seeds; Kani has no threads and compiles RandomState/rayon away, Verus cannot parse the rayon/hashbrown code; no contract within reach can express it',
